@@ -12,7 +12,14 @@
                                                              solve_period(label, ...) on the tracer-extended instance, for any
                                                              label type L and span lookup `locate`
      solve_M / solve_period_M / run_periods (Solver/SolveAll.v)  the same without the keywords (reference model of C03/C05)
-     solve_targets                                            the positions solve() will visit ([] when it rejects its arguments) *)
+     solve_targets                                            the positions solve() will visit ([] when it rejects its arguments)
+     to_dataframe x / wf_trace x (Tracer.v)                    Trace.to_dataframe(): the labels x names table, ValueError when labels, columns and
+                                                             names do not fit
+     trace_names / select / mutates (TracerNames.v)            WHICH list object a Trace keeps as `names`: list objects in a heap, trace= given as an
+                                                             object; in-place edits of other objects
+     linked_passes / plain_passes (TracerLinked.v)             the passes a BaseLinker makes of a (traced / plain) submodel through _evaluate
+     reindex_cells / copy_cells / trace_t_cells (TracerReindex.v)  the object array `_trace` (cells = references or None) under reindex(), copy(), trace_t
+     tracer_init (TracerSolve.v)                               TracerMixin.__init__ *)
 From Coq Require Import ZArith List Bool PrimFloat.
 Import ListNotations.
 Require Import PyBase Solver SolverFacts SolverF SolveAll Tracer TracerSolve TracerNames TracerLinked TracerReindex TracerFacts TracerFacts2 TracerFacts3 TracerFacts4 TracerF TracerExamples.
